@@ -6,6 +6,7 @@ package neutrino
 // every spelling of one IP.
 
 import (
+	"net"
 	"time"
 
 	"github.com/btcsuite/btcd/chaincfg/v2"
@@ -130,4 +131,67 @@ func VerifH_C13_refuseBanned() {
 		after := vpCalls("connmgr.Remove") + vpCalls("connmgr.Disconnect")
 		vpAssert(after == before+1, "banned-outbound-connection-dropped")
 	}
+}
+
+// vpSlowBanStore lets the other goroutines run (to their next blocking
+// point) before the ban record is written: a ban write that waits for the
+// database.
+type vpSlowBanStore struct {
+	banman.Store
+	before func()
+}
+
+func (w *vpSlowBanStore) BanIPNet(n *net.IPNet, r banman.Reason, d time.Duration) error {
+	w.before()
+	return w.Store.BanIPNet(n, r, d)
+}
+
+// VerifH_C13_banPeerOrder: BanPeer on a connected peer, with the peer
+// handler answering queries concurrently and a ban write that takes its
+// time: the peer must not be dropped before the ban is on record
+// (otherwise a reconnect inside that window is accepted and the client
+// keeps a connection to a banned address); afterwards it is banned with
+// the given reason and disconnected.
+func VerifH_C13_banPeerOrder() {
+	s := vpChainService()
+	s.query = make(chan interface{})
+	addr := vpAddrs[vpRange("addr", 0, len(vpAddrs)-1)]
+	state := &peerState{
+		outboundPeers:   make(map[int32]*ServerPeer),
+		persistentPeers: make(map[int32]*ServerPeer),
+		outboundGroups:  make(map[string]int),
+	}
+	sp := &ServerPeer{Peer: &peer.Peer{}, server: s}
+	vpPeerSet(sp.Peer, "Addr", addr)
+	vpPeerSet(sp.Peer, "ID", int32(3))
+	state.outboundPeers[3] = sp
+	quit := make(chan struct{})
+	go func() {
+		for {
+			select {
+			case q := <-s.query:
+				s.handleQuery(state, q)
+			case <-quit:
+				return
+			}
+		}
+	}()
+	droppedBeforeBan := false
+	s.banStore = &vpSlowBanStore{Store: s.banStore, before: func() {
+		vpQuiesce()
+		if vpPeerDisconnects(sp.Peer) > 0 {
+			droppedBeforeBan = true
+		}
+	}}
+	err := s.BanPeer(addr, banman.InvalidFilterHeader)
+	vpQuiesce()
+	vpReach("connected-peer-banned")
+	vpAssert(err == nil, "ban-peer-ok")
+	vpAssert(!droppedBeforeBan, "peer-not-dropped-before-its-ban-is-on-record")
+	vpAssert(s.IsBanned(addr), "banned-after-ban-peer")
+	vpAssert(vpPeerDisconnects(sp.Peer) > 0, "banned-peer-disconnected")
+	ipNet, _ := banman.ParseIPNet(addr, nil)
+	st, err2 := s.banStore.Status(ipNet)
+	vpAssert(err2 == nil && st.Banned && st.Reason == banman.InvalidFilterHeader, "ban-recorded-with-its-reason")
+	close(quit)
 }
